@@ -142,6 +142,13 @@ func (d *directNode) applyDirect(h uint32, bals map[fat2.PTicker]uint64, txs []f
 }
 
 // specVerdict is the admission table of C13 written out directly (single conversion).
+// specOneWayTickers: destinations closed by the OneWaySmallAssetsConversions rule.
+func specOneWayTickers() []fat2.PTicker {
+	return []fat2.PTicker{fat2.PTickerPEG, fat2.PTickerDCR, fat2.PTickerDGB, fat2.PTickerDOGE, fat2.PTickerHBAR, fat2.PTickerONT,
+		fat2.PTickerRVN, fat2.PTickerBAT, fat2.PTickerALGO, fat2.PTickerBIF, fat2.PTickerETB, fat2.PTickerKES, fat2.PTickerNGN,
+		fat2.PTickerRWF, fat2.PTickerTZS, fat2.PTickerUGX}
+}
+
 func specVerdict(a Acts, h uint32, src, dst fat2.PTicker, amount, bal uint64, rates, avgs map[fat2.PTicker]uint64, oneWay map[fat2.PTicker]bool) string {
 	if amount > bal {
 		return "reject -1"
@@ -180,8 +187,12 @@ func scenAdmission(rep *Report, tier string, seed int64) {
 	}
 	defer m.Close()
 	m.Must(ParamsLine(s))
+	// the SPECIFICATION's one-way destinations are pinned here (the protocol rule the property
+	// names: PEG and the small-cap assets); the model takes its set from the regenerated facts, so
+	// a changed list in the source moves model and implementation together and it is this
+	// pinned list that exhibits the conversion that is now wrongly executed or refused
 	oneWay := map[fat2.PTicker]bool{}
-	for _, t := range oneWayTickers() {
+	for _, t := range specOneWayTickers() {
 		oneWay[t] = true
 	}
 	heights := []uint32{39, 40, 41, 49, 50, 51, 69, 70, 89, 90, 91, 119, 120, 121}
@@ -290,6 +301,17 @@ func scenAdmission(rep *Report, tier string, seed int64) {
 			}
 		}
 	}
+	// every destination, just below / at / above the small-asset activation and in the last era
+	// (quick tier too: a destination missing from or added to the one-way list is a single pair)
+	for _, h := range []uint32{89, 90, 91, 121} {
+		for di := 1; di <= nT; di++ {
+			src := fat2.PTickerUSD
+			if fat2.PTicker(di) == src {
+				src = fat2.PTickerEUR
+			}
+			run1(h, src, fat2.PTicker(di), 0, 0)
+		}
+	}
 	n := 2500
 	if tier == "thorough" {
 		n = 30000
@@ -302,7 +324,7 @@ func scenAdmission(rep *Report, tier string, seed int64) {
 		case 0:
 			dst = fat2.PTickerFCT
 		case 1:
-			ow := oneWayTickers()
+			ow := specOneWayTickers()
 			dst = ow[r.Intn(len(ow))]
 		case 2:
 			dst = fat2.PTickerPEG
